@@ -182,6 +182,35 @@ def oracle_repeat(case):
     return out
 
 
+# ------------------------------------------------------------------------------------------------------------
+# a group that merely looks like the inner group of a Definition in the same string
+def twin_strategy(versions):
+    @st.composite
+    def strat(draw):
+        v = draw(st.sampled_from(versions))
+        pl = gen_hed.pool(v)
+        valued = pl.valued[draw(st.integers(0, len(pl.valued) - 1))]
+        plain = [pl.plain[draw(st.integers(0, len(pl.plain) - 1))] for _ in range(draw(st.integers(1, 2)))]
+        members = [f"{valued.short}/#"] + [p_.short for p_ in plain]
+        inner = ", ".join(draw(st.permutations(members)))
+        twin_a = inner
+        twin_b = ", ".join(draw(st.permutations(members)))
+        head = draw(st.sampled_from(["(Definition/Xdef/#, ({}))", "(({}), Definition/Xdef/#)"])).format(inner)
+        return {"version": v, "a": f"{head}, ({twin_a})", "b": f"{head}, ({twin_b})",
+                "allow_placeholders": draw(st.booleans())}
+    return strat()
+
+
+def oracle_twin(case):
+    out = Outcome(nontrivial=case["a"] != case["b"])
+    c = {"version": case["version"], "defs": [], "allow_placeholders": case["allow_placeholders"]}
+    a, b = codes(c, case["a"]), codes(c, case["b"])
+    if a != b:
+        out.bad("codes-change-when-a-group-resembles-a-definition:" + "+".join(sorted(set((a - b) | (b - a)))),
+                f"{case['version']}: {case['a']!r} -> {dict(a)}; {case['b']!r} -> {dict(b)}")
+    return out
+
+
 def warmup(tier):
     for v in (QUICK if tier == "quick" else ALL):
         hedenv.schema(v)
@@ -194,4 +223,5 @@ def parts(tier):
             Part("spacing-of-delimiter-faults", oracle_spacing, strategy=spacing_strategy(versions),
                  n=800 if tier == "quick" else 24000),
             Part("repeat-among-bystanders", oracle_repeat, strategy=repeat_strategy(versions),
-                 n=600 if tier == "quick" else 24000)]
+                 n=600 if tier == "quick" else 24000),
+            Part("definition-twin", oracle_twin, strategy=twin_strategy(versions), n=300 if tier == "quick" else 8000)]
